@@ -296,7 +296,7 @@ def run(check, repo: Repo) -> None:
                       and (call_name(n.value) or "") in ("self.copy", "copy.deepcopy") for t in n.targets if isinstance(t, ast.Name)}
         maybe_self = {t.id for n in walk_no_nested_defs(fn) if isinstance(n, ast.Assign) and isinstance(n.value, ast.IfExp)
                       and ("self" in (dotted(n.value.body), dotted(n.value.orelse))) for t in n.targets if isinstance(t, ast.Name)}
-        first_self_store = None
+        self_stores: list[tuple[int, str]] = []
         for n in cfg.nodes:
             if n.kind != "stmt" or not isinstance(n.stmt, ast.Assign):
                 continue
@@ -314,8 +314,7 @@ def run(check, repo: Repo) -> None:
                     else:
                         inpl[fld] = val
                         copy_[fld] = val
-                    if first_self_store is None or cfg.dominates(n.id, first_self_store):
-                        first_self_store = n.id
+                    self_stores.append((n.id, fld))
                 elif owner in copy_names:
                     copy_[fld] = val.replace(f"{owner}.", "self.")
         if not tb and not maybe_self:
@@ -326,11 +325,18 @@ def run(check, repo: Repo) -> None:
                      detail, mod.line(fn),
                      fail_detail=f"the two arms differ: {detail} — the in-place variant no longer produces the same array "
                                  f"and calibration as the copying variant")
-        # after the first store into self's state, the old state must not be read again
-        if first_self_store is not None:
-            later = cfg.reachable_from(first_self_store) - {first_self_store}
-            bad = []
-            for nid in later:
+        # after a store into one of self's fields, what that field determines must not be read again: in the in-place variant the
+        # read yields the new value, in the copying variant (where the store went to the copy) the old one — the arms disagree.
+        # Field-sensitive def-use over the CFG, independent of how the function is laid out → a definite verdict.
+        DEP = {"array": {"array", "_array", "shape", "ndim", "dtype"}, "sampling": {"sampling", "_sampling"},
+               "origin": {"origin", "_origin"}, "units": {"units", "_units"}}
+        bad = []
+        n_stores = 0
+        first_line = None
+        for sid, fld in self_stores:
+            n_stores += 1
+            first_line = first_line or mod.line(cfg.nodes[sid].stmt)
+            for nid in cfg.reachable_from(sid) - {sid}:
                 nd = cfg.nodes[nid]
                 exprs = [nd.stmt] if nd.kind == "stmt" else ([nd.expr] if nd.expr is not None else [])
                 for e in exprs:
@@ -338,13 +344,13 @@ def run(check, repo: Repo) -> None:
                         continue
                     for a in ast.walk(e):
                         if isinstance(a, ast.Attribute) and isinstance(a.ctx, ast.Load) and dotted(a.value) == "self" \
-                                and a.attr in ("shape", "ndim", "array", "origin", "sampling", "units", "_array", "_origin", "_sampling", "_units"):
-                            # a read inside the same statement as a field store of the in-place arm is the old value
-                            bad.append(f"self.{a.attr} at line {getattr(a, 'lineno', 0)}")
+                                and a.attr in DEP[fld]:
+                            bad.append(f"self.{a.attr} at line {getattr(a, 'lineno', 0)} (after the store of `{fld}`)")
+        if n_stores:
             check.decide(not bad, "C03-R5", f"Dataset.{mname}: the old state is not read after the first in-place store",
-                         "", mod.line(cfg.nodes[first_self_store].stmt),
-                         fail_detail=f"{sorted(set(bad))[:4]} are evaluated after self's state was already replaced: in place, "
-                                     f"calibration is computed from the new shape instead of the old one")
+                         f"{n_stores} stores into self's fields, no later read of what they determine", first_line,
+                         fail_detail=f"{sorted(set(bad))[:4]} are evaluated after that part of self's state was already replaced: in "
+                                     f"place, calibration is computed from the new shape instead of the old one", definite=True)
 
     # ---- R6 index bookkeeping -------------------------------------------------------------------
     _rule_getitem(check, repo, mod)
